@@ -6,11 +6,14 @@ wt=$1; m=$2; prop=$3; sid=$4; shift 4
 md=$wt/mutations/$m
 cd /verif
 git -C /repo status --short | grep -q . && { echo "/repo not clean"; exit 2; }
+# evidence files describe the unchanged tree: keep them aside while the patched tree is checked
+ev=$(mktemp -d); cp -a evidence/. $ev/
 git -C /repo apply $md/patch.diff || { echo "patch does not apply to /repo"; exit 2; }
 ./check $prop quick > $md/check.log 2>&1; rc=$?
 others=""
 for q in "$@"; do ./check $q quick > $md/check-$q.log 2>&1; others="$others $q=$?"; done
 git -C /repo checkout -q -- .
+cp -a $ev/. evidence/; rm -rf $ev
 grep -E "VIOLATION|KNOWN-FINDING" $md/check.log | head -3
 tail -1 $md/check.log
 echo "check rc=$rc others:$others"
